@@ -76,7 +76,7 @@ def readClause (sp : S.Spec) : Option (Ver × Bool) :=
   | none => none
   | some v =>
     let bare := v.pre.isNone && v.post.isNone && v.dev.isNone && v.loc.isNone
-    if (!wild || bare) && (wild || !endsWith sp.ver [46, 42]) &&
+    if (!wild || bare) &&
        (v.loc.isNone || sp.op == .eq || sp.op == .ne) &&
        (sp.op != .compatible || decide (2 ≤ v.release.length)) then some (v, wild) else none
 
